@@ -9,7 +9,7 @@ import time
 
 from . import qscommon, qsrun
 from .kernel import HarnessError, Violation, rng_for, stable_hash
-from .runner import Stats, load_known, match_known
+from .runner import Stats, digest_dump, load_known, match_known
 
 PROP = "C18"
 PLAN = {"quick": {"budget_s": 45, "max_runs": 30000}, "thorough": {"budget_s": 600, "max_runs": 3000000}}
@@ -110,6 +110,7 @@ def worker(seed, widx, nworkers, plan, scratch):
             steps = with_restarts(H, positions)
             res = _run(scratch, steps, ch, variant)
             n += 1
+            digest_dump(f"{i}@{positions}", res["digest"])
             st["runs"] += 1
             st["events"] += res["events"]
             st["sim_seconds"] += res["sim_seconds"]
